@@ -10,4 +10,5 @@ open BV
 #print axioms C05_pin_date_not_future
 #print axioms C05_calendar_never_backwards
 #print axioms C05_optional_omission
+#print axioms C05_zero_values
 #print axioms C05_omitted_renders_empty
